@@ -501,9 +501,10 @@ def table_sequences_rule(an: Analysis, rep, rule="R09.7"):
     SEQS = RUNS
     bad_rank, bad_unref = [], []
     n_calls = 0
+    from .c03 import package_evaluator as _pe
     for T, seq in RUNS:
-        ev = ObjEval(resolve, extra={}, methods=methods)
-        ev.module_assigns = ci.module.assigns
+        ev, _r = _pe(an, ci.module, (3, 10))
+        ev.methods = methods
         obj = Obj()
         try:
             first = True
@@ -550,9 +551,16 @@ def table_sequences_rule(an: Analysis, rep, rule="R09.7"):
     # a value that occurs twice in the table cannot be found again by value: from its second occurrence on it has to keep its position
     # (two equal constants CPython kept apart - 0.0 / -0.0 are not equal, but nan objects are; a hand-altered co_names with a repeated name)
     bad_dup = []
-    for TD, seq in ((("a", "b", "a"), [0, 1, 2]), (("a", "a"), [1, 0]), (("x", "y", "y", "x"), [0, 1, 2, 3])):
-        ev = ObjEval(resolve, extra={}, methods=methods)
-        ev.module_assigns = ci.module.assigns
+    _ev0, _R0 = _pe(an, ci.module, (3, 10))
+
+    def _cd():
+        L = _ev0.lib
+        return L["CodeData"](blocks=((L["Instruction"](name="RETURN_VALUE", arg=L["NoArg"](0), line_number=1),),), first_line_number=1, type=None, freevars=(), stacksize=1,
+                             filename="f.py", name="<lambda>")
+    CD1, CD2 = _cd(), _cd()  # two nested code objects that decode to equal data (CPython keeps equal code objects of different lines / hand-made tables apart)
+    for TD, seq in (((CD1, "b", CD2), [0, 1, 2]), (("a", "b", "a"), [0, 1, 2]), (("a", "a"), [1, 0]), (("x", "y", "y", "x"), [0, 1, 2, 3]), (("a", "a", "u", "v"), [0, 1, 2, 3]), (("a", "u", "a", "v"), [0, 2, 1, 3])):
+        ev, _r = _pe(an, ci.module, (3, 10))
+        ev.methods = methods
         obj = Obj()
         try:
             first = True
@@ -567,12 +575,19 @@ def table_sequences_rule(an: Analysis, rep, rule="R09.7"):
             if "__post_init__" in methods:
                 ev.call_method(methods["__post_init__"], obj)
             seen_vals = set()
+            met_d = {}
             for i in seq:
                 got = ev.call_method(rank.node, obj, i)
-                later = TD[i] in seen_vals
-                seen_vals.add(TD[i])
+                KT = ["<code>" if isinstance(v, Obj) else v for v in TD]
+                later = KT[i] in seen_vals
+                seen_vals.add(KT[i])
+                met_d.setdefault(i, len(met_d))
                 if later and (not isinstance(got, tuple) or got[1] != i):
-                    bad_dup.append(f"table {TD}, indices met in the order {seq}: `{rank.name}({i})` gives {got!r} - entry {i} repeats the value of an entry met before and carries no position")
+                    bad_dup.append(f"table {tuple(KT)}, indices met in the order {seq}: `{rank.name}({i})` gives {(('<code>' if isinstance(got[0], Obj) else got[0]), got[1]) if isinstance(got, tuple) and len(got) == 2 else got!r} - entry {i} repeats the value of an entry met before and carries no position")
+                elif KT.count(KT[i]) == 1 and isinstance(got, tuple) and got[1] != (i if met_d[i] != i else None):
+                    # entries that occur once keep their first-use rank, whatever else is in the table: repeated entries met before them count
+                    bad_dup.append(f"table {TD}, indices met in the order {seq}: `{rank.name}({i})` gives {got!r}, expected override {(i if met_d[i] != i else None)!r} - entry {i} is met as "
+                                   f"number {met_d[i] + 1} (the repeated entries met before it count like any other), so a position is recorded exactly when that differs from its index")
         except BlockOutcome as o:
             bad_dup.append(f"table {TD}: stops at `{norm_src(o.node)[:60]}`")
         except (FevalError, KeyError, IndexError, TypeError, AttributeError) as e:
